@@ -625,12 +625,12 @@ def oracles(lines):
             # this statement — a refusal (drop / block) now is a statement lost to the shrink request
             sh = shrunk.get(a) if op == "L" and len(w) > 4 else None
             mb = re.search(r"ret=1 .*bytes=(\d+)", res)
-            if sh and ("parked" in res or "ret=0" in res) and "threw" not in res and 2 * sh["cap"] <= cfg.get("qmax", 0) \
+            if sh and ("parked:sleep" in res or "ret=0" in res) and "threw" not in res and 2 * sh["cap"] <= cfg.get("qmax", 0) \
                     and int(w[4]) + 64 <= 2 * sh["cap"]:
                 viol.append(("C20", "after the shrink request of actor %d took effect (capacity reported %d, %d bytes enqueued since) its statement "
                              "id=%d of %s+~40 bytes was %s although a buffer of %d bytes is within the configured maximum %d and would take it: "
                              "shrinking the queue made it refuse (lose) statements" % (
-                                 a, sh["cap"], sh["used"], i, w[4], "blocked" if "parked" in res else "dropped", 2 * sh["cap"], cfg.get("qmax", 0))))
+                                 a, sh["cap"], sh["used"], i, w[4], "blocked (the call sleeps on a full queue)" if "parked" in res else "dropped", 2 * sh["cap"], cfg.get("qmax", 0))))
             if sh and mb and sh["used"] + int(mb.group(1)) <= sh["cap"]:
                 sh["used"] += int(mb.group(1))
             else:
